@@ -5,6 +5,10 @@ Float carrier — IEEE special values are native there, so the KIND (nan/+inf/-i
 agree exactly and finite values within a float bound.
 predicate: at t = 0 or v = 0 prices equal the certain payoff, deltas their limits, nothing is NaN;
 negative t / v raise; BlackScholes / WhalleyWilmott hedgers give finite hedges and P&L.
+input class "on the strike": markets (float32, the default dtype, and float64) whose spot sits EXACTLY on a strike that is not a binary
+fraction (0.9, 0.95, 1.03, 1.05, 1.1, 1.2; init_state=(strike,)), every parameter taken from the derivative / the hedger's features:
+zero-volatility paths resting on the strike (European price 0, delta +-1/2, American binary price 1, lookback price 0) and ordinary
+paths started on the strike (an American binary struck at the initial spot pays 1 on every path: price at the last step = payoff).
 """
 import math
 from fractions import Fraction as F
@@ -13,6 +17,7 @@ from common import *  # noqa
 PRICE_FNS = ["european_price", "european_binary_price", "american_binary_price", "lookback_price"]
 DELTA_FNS = ["european_delta", "european_binary_delta", "american_binary_delta"]
 OTHER_FNS = ["european_gamma", "european_vega", "european_theta", "d1", "d2"]
+NONDYADIC = [0.9, 0.95, 1.03, 1.05, 1.1, 1.2]          # strikes that are not binary fractions: float32(K) != K
 
 
 def kind(x):
@@ -45,8 +50,10 @@ def call_bs(torch, fnl, fn, s, t, v, k, m, call):
     raise ValueError(fn)
 
 
-def certain_payoff(fn, s, k, m, call):
-    """value that is certain when no randomness is left (t = 0 or v = 0); None = not constrained"""
+def certain_payoff(fn, s, k, m, call, resting=False):
+    """value that is certain when no randomness is left (t = 0 or v = 0); None = not constrained.
+    resting: the state belongs to a zero-volatility path that sits on the strike at every step (log-moneyness identically 0): along
+    such a path d1 = d2 = 0 for every (t, v) -> (0, 0), so the European delta has the unambiguous limit N(0) = 1/2 (put: -1/2)"""
     S, M = k * math.exp(s), k * math.exp(m)
     if fn == "european_price":
         return max(S - k, 0.0) if call else max(k - S, 0.0)
@@ -62,7 +69,7 @@ def certain_payoff(fn, s, k, m, call):
         return max(max(M, S) - k, 0.0)
     if fn == "european_delta":
         if s == 0:
-            return None
+            return (0.5 if call else -0.5) if resting else None
         return (1.0 if s > 0 else 0.0) if call else (0.0 if s > 0 else -1.0)
     if fn == "european_binary_delta":
         return 0.0 if s != 0 else None
@@ -101,7 +108,9 @@ def check(ctx):
                 t = g.choice(zs[3:])
             else:
                 v = g.choice(zs[3:])
-        k = g.choice([0.5, 1.0, 2.0, 7.5])
+        # strikes that are not binary fractions only at moderate moneyness: K * exp(s) is then rounded, and at |s| >= 30 the put-call
+        # parity S - K cancels at the scale of the spot (1e13 * 2^-53), beyond the absolute tolerance below
+        k = g.choice([0.5, 1.0, 2.0, 7.5] + ([0.9, 1.05] if abs(s) <= 3.0 else []))
         call = g.chance(0.5) if fn in ("european_price", "european_delta", "european_binary_price", "european_binary_delta") else True
         m = s if fn.startswith("european") or fn in ("d1", "d2") else max(s, 0.0) + g.choice([0.0, 0.0, 0.1, 1.0]) if g.chance(0.7) else s
         case = {"fn": fn, "s": s, "t": t, "v": v, "k": k, "m": m, "call": call, "which": which}
@@ -165,13 +174,24 @@ def check(ctx):
         if opt is EuropeanBinaryOption and und == "brownian" and sig == 0.0 and k_ == 1.0:
             k_ = 1.1      # a European binary exactly at the strike with zero volatility has an infinite limiting delta (the property's
             #               "away from the strike"): the hedge is legitimately unbounded there
-        d = opt(stock, strike=k_, maturity=g.choice([5 / 250, 20 / 250]))
+        # the market starts exactly ON the strike (init_state=(strike,), strikes that are not binary fractions, float32 paths): with zero
+        # volatility the path rests there (Black-Scholes delta = the at-the-money limit +-1/2, gamma infinite), with an ordinary
+        # volatility an American binary has touched its barrier at inception
+        on_strike = und == "brownian" and g.chance(0.4)
+        call_ = g.chance(0.5) if opt in (EuropeanOption, EuropeanBinaryOption) else True
+        if on_strike:
+            k_ = g.choice(NONDYADIC + [1.0])
+            if opt is EuropeanBinaryOption and sig == 0.0:
+                on_strike = False      # infinite limiting delta, see above
+                k_ = 1.1
+        d = opt(stock, strike=k_, maturity=g.choice([5 / 250, 20 / 250]), **({"call": call_} if opt in (EuropeanOption, EuropeanBinaryOption) else {}))
         for mk in ("bs", "ww"):
             model = BlackScholes(d) if mk == "bs" else WhalleyWilmott(d)
             h = Hedger(model, model.inputs())
-            d.simulate(n_paths=g.choice([1, 7, 50]))
+            d.simulate(n_paths=g.choice([1, 7, 50]), **({"init_state": (k_,)} if on_strike else {}))
             case = {"underlier": und, "option": opt.__name__, "model": mk, "cost": cost, "sigma": sig if und == "brownian" else None,
-                    "strike": float(d.strike)}
+                    "strike": float(d.strike), "call": call_, "spot_starts_on_strike": on_strike}
+            ctx.stats[f"hedger:on_strike={on_strike}"] += 1
             with torch.no_grad():
                 st1, hedge, _ = call_impl(h.compute_hedge, d)
                 st2, plv, _ = call_impl(h.compute_pl, d)
@@ -189,6 +209,13 @@ def check(ctx):
                     elif mk == "ww" and cost > 0 and opt in (EuropeanBinaryOption, AmericanBinaryOption):
                         key = "hedger:ww-binary:nonfinite:zero-volatility"
                 ctx.fail("BlackScholes / WhalleyWilmott hedger produced a non-finite hedge or P&L", case, key=key)
+            elif on_strike and sig == 0.0 and opt is EuropeanOption and mk == "bs":
+                # the Black-Scholes hedge IS the delta: on a zero-volatility path resting on the strike it is the at-the-money limit
+                lim = 0.5 if call_ else -0.5
+                if not bool(((hedge - lim).abs() <= 1e-6).all()):
+                    ctx.fail("the Black-Scholes hedge of a European option on a zero-volatility path resting exactly on the strike is not the limiting "
+                             "at-the-money delta +-1/2", case, key="hedger:bs:EuropeanOption:on-strike:zero-volatility-delta",
+                             detail={"hedge[0, 0, :]": hedge[0, 0].tolist(), "expected": lim, "spot[0, 0]": float(stock.spot[0, 0])})
     # ---------------- the lookback delta is the autograd derivative of the price: evaluate it at the edge as the closed-form ones
     import pfhedge.nn.functional as fnl_
     for _ in range(40 if ctx.tier == "quick" else 400):
@@ -289,9 +316,25 @@ def check(ctx):
         option = g.choice(sorted(OPT_FN))
         pd = option in ("AmericanBinaryOption", "LookbackOption")
         call = True if pd else g.chance(0.5)
-        source = g.choice(["simulated", "simulated", "injected"])
+        source = g.choice(["simulated", "simulated", "injected", "on_strike", "on_strike"])
         built = g.choice(["BlackScholes", "from_derivative"])
-        if source == "injected":
+        resting = False
+        if source == "on_strike":
+            # the spot sits EXACTLY on a strike that is not a binary fraction, in the dtype of the market (float32 = pfhedge's default):
+            # sigma = 0: the path rests on the strike, every step is a zero-volatility state at the money; sigma > 0: an ordinary path
+            # started on the strike (American binary: barrier touched at inception, payoff 1 on every path; running maximum >= strike)
+            dtp = g.choice([torch.float32, torch.float32, torch.float64])
+            sig = g.choice([0.0, 0.0, 0.2, 0.5])
+            k = g.choice(NONDYADIC)
+            resting = sig == 0.0
+            u = pin.BrownianStock(sigma=sig, dtype=dtp)
+            d = getattr(pin, option)(u, call=call, strike=k, maturity=g.choice([3 / 250, 10 / 250]))
+            tseed = g.randint(0, 2 ** 31 - 1)
+            torch.manual_seed(tseed)
+            d.simulate(n_paths=g.choice([1, 3, 8, 64]), init_state=(k,))
+            case = {"option": option, "call": call, "strike": k, "built": built, "source": source, "underlier": "brownian", "sigma": sig,
+                    "dtype": str(dtp).replace("torch.", ""), "init_state": [k], "torch_seed": tseed, "spot": u.spot[:8].tolist()}
+        elif source == "injected":
             mk = gen_market(g, primary=g.choice(["BrownianStock", "HestonStock"]))     # Heston: zero volatilities inside the path
             mk["option"], mk["call"] = option, call
             if mk["primary"] == "BrownianStock" and g.chance(0.3):
@@ -328,34 +371,76 @@ def check(ctx):
         sp, vl, pr, dl = spot.tolist(), vol.tolist(), price.detach().tolist(), delta.detach().tolist()
         pay = d.payoff().tolist()
         bad = set()
+        # the strike of a float32 market is the float32 number nearest to K (init_state=(K,) and strike=K are the same number there):
+        # log-moneyness and "at the strike" are taken against it; float32 values carry a few float32 roundings (16 eps), float64 as before
+        f32 = spot.dtype == torch.float32
+        kq = float(torch.tensor(k, dtype=spot.dtype))
+        TOL = 16 * 2.0 ** -23 if f32 else 1e-9
+        if source == "on_strike":
+            ctx.stats["module_paths:on_strike:" + ("resting" if resting else "started") + (":float32" if f32 else ":float64")] += 1
+            if not all(sp[p_][0] == kq for p_ in range(N_)) or (resting and not all(x == kq for row in sp for x in row)):
+                raise InternalError("on-strike market: the simulated path does not start / rest on the strike")
+            if option == "AmericanBinaryOption" and not all(x == 1.0 for x in pay):
+                raise InternalError("on-strike market: an American binary struck at the initial spot must pay 1 on every path")
+        # the same parameters through the features of a hedger (what the hedgers feed the module with) at the last time step
+        feat_price = feat_delta = None
+        hh = Hedger(mod, mod.inputs())
+        with torch.no_grad():
+            stf, _, _ = call_impl(hh.compute_hedge, d)
+            if stf == "ok":
+                stf, last, _ = call_impl(hh.get_input, d, T_n - 1)
+            if stf == "ok":
+                cols = [last[..., i_] for i_ in range(last.size(-1))]
+                st3, fp_, _ = call_impl(mod.price, *cols)
+                st4, fd_, _ = call_impl(mod.delta, *cols)
+                if st3 == "ok" and tuple(fp_.shape) == (N_, 1):
+                    feat_price = fp_[:, 0].tolist()
+                if st4 == "ok" and tuple(fd_.shape) == (N_, 1):
+                    feat_delta = fd_[:, 0].tolist()
         for p_ in range(N_):
             run = -math.inf
             for j in range(T_n):
                 run = max(run, sp[p_][j])
                 if not (j == T_n - 1 or vl[p_][j] == 0.0):
                     continue
-                s_, m_ = math.log(sp[p_][j] / k), math.log(run / k)
+                s_, m_ = math.log(sp[p_][j] / kq), math.log(run / kq)
                 at = case | {"path": p_, "step": j, "s": s_, "m": m_, "v": vl[p_][j], "last_column": j == T_n - 1}
-                for what, val in (("price", pr[p_][j]), ("delta", dl[p_][j])):
+                routes = [("price", pr[p_][j], ""), ("delta", dl[p_][j], "")]
+                if j == T_n - 1 and feat_price is not None:
+                    routes.append(("price", feat_price[p_], ":hedger-features"))
+                if j == T_n - 1 and feat_delta is not None:
+                    routes.append(("delta", feat_delta[p_], ":hedger-features"))
+                for what, val, route in routes:
                     fn = OPT_FN[option] + "_" + what
                     if (fn, "nan") not in bad and math.isnan(val):
                         bad.add((fn, "nan"))
                         ctx.fail(f"{what}() of the module built from a derivative is NaN where the time to maturity or the volatility of the "
                                  "simulated state is zero", at, key=nan_key(fn), detail="nan")
-                    exp = certain_payoff(fn, s_, k, m_, call)
-                    if (fn, "val") not in bad and exp is not None and not math.isnan(val) and not (abs(val - exp) <= 1e-9 * max(1.0, abs(exp))):
+                    exp = certain_payoff(fn, s_, kq, m_, call, resting=resting)
+                    if (fn, "val") not in bad and exp is not None and not math.isnan(val) and not (abs(val - exp) <= TOL * max(1.0, abs(exp))):
                         bad.add((fn, "val"))
                         ctx.fail(f"{what}() of the module built from a derivative differs from the certain payoff / limiting delta where the time to "
-                                 "maturity or the volatility of the simulated state is zero", at, key=f"bs_module:{fn}:value-at-expiry",
+                                 "maturity or the volatility of the simulated state is zero" + (" (parameters from the hedger's features)" if route else ""), at,
+                                 key=f"bs_module:{fn}:value-at-expiry" + (":on-strike" if source == "on_strike" else "") + route,
                                  detail={"module": val, "expected": exp})
             # the maturity column is the payoff of that path (a European binary exactly at the strike is not constrained)
-            at_strike = option == "EuropeanBinaryOption" and sp[p_][-1] == k
-            if "pay" not in bad and not at_strike and not math.isnan(pr[p_][-1]) and not (abs(pr[p_][-1] - pay[p_]) <= 1e-9 * max(1.0, abs(pay[p_]))):
+            at_strike = option == "EuropeanBinaryOption" and sp[p_][-1] == kq
+            if "pay" not in bad and not at_strike and not math.isnan(pr[p_][-1]) and not (abs(pr[p_][-1] - pay[p_]) <= TOL * max(1.0, abs(pay[p_]))):
                 bad.add("pay")
                 ctx.fail("BlackScholes(derivative).price() at time to maturity 0 (last column) differs from derivative.payoff()", case | {"path": p_},
-                         key=f"bs_module:{option}:maturity-column-vs-payoff", detail={"price[:, -1]": pr[p_][-1], "payoff": pay[p_]})
+                         key=f"bs_module:{option}:maturity-column-vs-payoff" + (":on-strike" if source == "on_strike" else ""),
+                         detail={"price[:, -1]": pr[p_][-1], "payoff": pay[p_], "spot[path]": sp[p_], "strike": k})
+            if "payf" not in bad and feat_price is not None and not at_strike and not math.isnan(feat_price[p_]) \
+                    and not (abs(feat_price[p_] - pay[p_]) <= TOL * max(1.0, abs(pay[p_]))):
+                bad.add("payf")
+                ctx.fail("the Black-Scholes price evaluated on the hedger's features of the last time step (time to maturity 0) differs from derivative.payoff()",
+                         case | {"path": p_}, key=f"bs_module:{option}:maturity-features-vs-payoff" + (":on-strike" if source == "on_strike" else ""),
+                         detail={"price": feat_price[p_], "payoff": pay[p_], "spot[path]": sp[p_], "strike": k})
     return ctx.finish(
         rule="bs_* functions (4 prices, 3 deltas, European gamma/vega/theta, d1/d2) at t=0, v=0, both, tiny (5e-324,1e-300,1e-16), negative; "
              "|log-moneyness| in {0,1e-12,..,700}, strikes, call/put, running max >= spot; real BS/WW hedgers on simulated Brownian/Heston paths; the four BS modules (direct / from_derivative / BlackScholes, strikes != 1, calls and puts) "
-             "at explicit t=0 / v=0 inputs and on simulated / injected derivatives (last column vs payoff, zero-volatility steps); "
+             "at explicit t=0 / v=0 inputs and on simulated / injected derivatives (last column vs payoff, zero-volatility steps; price / delta also "
+             "evaluated on the hedger's features of the last time step); markets ON the strike (init_state=(K,), K in {0.9,0.95,1.03,1.05,1.1,1.2}, float32 "
+             "and float64, sigma 0 = resting on the strike: European delta +-1/2, or sigma in {0.2,0.5}: American binary touched at inception) through "
+             "BlackScholes / BS*.from_derivative, the hedger features and the BS / WW hedgers; float32 values within 16 * 2^-23; "
              "every case non-trivial; distinct = sha1 of canonical case")
